@@ -10,8 +10,9 @@ from gen import resolver as G
 
 ID = "C08"
 PROPS = ["IsoVerif/Props/C08.lean", "IsoVerif/Props/C08Order.lean", "IsoVerif/Props/C08Flow.lean",
-         "IsoVerif/Props/C08Tables.lean"]
-TARGETS = ["IsoVerif.Props.C08", "IsoVerif.Props.C08Order", "IsoVerif.Props.C08Flow", "IsoVerif.Props.C08Tables"]
+         "IsoVerif/Props/C08Tables.lean", "IsoVerif/Props/C08Pickle.lean"]
+TARGETS = ["IsoVerif.Props.C08", "IsoVerif.Props.C08Order", "IsoVerif.Props.C08Flow", "IsoVerif.Props.C08Tables",
+           "IsoVerif.Props.C08Pickle"]
 GEN_DEPS = ["Enums", "EventClasses", "Strategies", "Prims", "Resolver"]
 LEVEL = "proof"
 RULE = ("per-read record lists on real BasicReadAssignment objects: every (type, flag, locus, isoforms, penalty) pair "
@@ -263,6 +264,9 @@ def _impl_dispatch(op, kw):
         return impl_resolve(kw["strategy"], kw["recs"])
     if op == "find_duplicates":
         return impl_find_duplicates(kw["recs"], kw["idx"])
+    if op == "pickle_roundtrip":
+        import pickle
+        return G.from_basic(pickle.loads(pickle.dumps(G.to_basic(kw["rec"]))))
     if op == "set_size":
         return len(set(kw["l"]))
     if op == "compact_penalty":
@@ -318,6 +322,11 @@ def _correspondence(ctx):
         idx = rng.sample(range(len(l)), rng.randint(0, len(l)))
         cases.append(("find_duplicates", {"recs": l, "idx": idx}))
     cases.append(("find_duplicates", {"recs": G.rand_list(rng, 2), "idx": [0, 5]}))
+    # 3b. the pickle boundary (worker results under --high_memory --threads > 1): every field survives
+    for u in G.record_universe()[::(3 if quick else 1)]:
+        cases.append(("pickle_roundtrip", {"rec": G.build([u])[0]}))
+    for _ in range(300 if quick else 3000):
+        cases.append(("pickle_roundtrip", {"rec": G.rand_record(rng, rng.randrange(1, 10 ** 6), G.ALL_TYPES)}))
     for _ in range(200):
         cases.append(("set_size", {"l": [rng.randrange(4) for _ in range(rng.randint(0, 6))]}))
         cases.append(("compact_penalty", {"l": [rng.choice([0, 1, 3, -2]) * (G.SHORT_FLOAT_MULTIPLIER // 2)
